@@ -248,6 +248,16 @@ func Consensus(f io.Reader) (FastaRecord, error) {
 	return consensus, err
 }
 
+// idFromDescription returns the ID of a fasta record (the first whitespace-delimited token of
+// its header line), or an error if the header contains no ID
+func idFromDescription(description string) (string, error) {
+	fields := strings.Fields(description)
+	if len(fields) == 0 {
+		return "", errors.New("badly formatted fasta file: header line without a sequence ID")
+	}
+	return fields[0], nil
+}
+
 // ReadAlignment reads an alignment in fasta format to a channel of FastaRecord structs
 func ReadAlignment(f io.Reader, chnl chan FastaRecord, cErr chan error, cdone chan bool) {
 
@@ -279,7 +289,11 @@ func ReadAlignment(f io.Reader, chnl chan FastaRecord, cErr chan error, cdone ch
 			}
 
 			description = line[1:]
-			id = strings.Fields(description)[0]
+			id, err = idFromDescription(description)
+			if err != nil {
+				cErr <- err
+				return
+			}
 
 			first = false
 
@@ -297,7 +311,11 @@ func ReadAlignment(f io.Reader, chnl chan FastaRecord, cErr chan error, cdone ch
 			counter++
 
 			description = line[1:]
-			id = strings.Fields(description)[0]
+			id, err = idFromDescription(description)
+			if err != nil {
+				cErr <- err
+				return
+			}
 			seqBuffer = ""
 
 		} else {
@@ -375,7 +393,11 @@ func ReadEncodeAlignment(f io.Reader, hardGaps bool, chnl chan EncodedFastaRecor
 			}
 
 			description = string(line[1:])
-			id = strings.Fields(description)[0]
+			id, err = idFromDescription(description)
+			if err != nil {
+				cErr <- err
+				return
+			}
 
 			first = false
 
@@ -393,7 +415,11 @@ func ReadEncodeAlignment(f io.Reader, hardGaps bool, chnl chan EncodedFastaRecor
 			counter++
 
 			description = string(line[1:])
-			id = strings.Fields(description)[0]
+			id, err = idFromDescription(description)
+			if err != nil {
+				cErr <- err
+				return
+			}
 			seqBuffer = make([]byte, 0)
 
 		} else {
@@ -484,7 +510,11 @@ func ReadEncodeScoreAlignment(f io.Reader, hardGaps bool, chnl chan EncodedFasta
 			}
 
 			description = string(line[1:])
-			id = strings.Fields(description)[0]
+			id, err = idFromDescription(description)
+			if err != nil {
+				cErr <- err
+				return
+			}
 
 			first = false
 
@@ -506,7 +536,11 @@ func ReadEncodeScoreAlignment(f io.Reader, hardGaps bool, chnl chan EncodedFasta
 			counter++
 
 			description = string(line[1:])
-			id = strings.Fields(description)[0]
+			id, err = idFromDescription(description)
+			if err != nil {
+				cErr <- err
+				return
+			}
 			seqBuffer = make([]byte, 0)
 			score = 0
 			for i := range counting {
@@ -601,7 +635,10 @@ func ReadEncodeAlignmentToList(f io.Reader, hardGaps bool) ([]EncodedFastaRecord
 			}
 
 			description = string(line[1:])
-			id = strings.Fields(description)[0]
+			id, err = idFromDescription(description)
+			if err != nil {
+				return []EncodedFastaRecord{}, err
+			}
 
 			first = false
 
@@ -618,7 +655,10 @@ func ReadEncodeAlignmentToList(f io.Reader, hardGaps bool) ([]EncodedFastaRecord
 			counter++
 
 			description = string(line[1:])
-			id = strings.Fields(description)[0]
+			id, err = idFromDescription(description)
+			if err != nil {
+				return []EncodedFastaRecord{}, err
+			}
 			seqBuffer = make([]byte, 0)
 
 		} else {
